@@ -3,7 +3,7 @@
 ALL = ["CreateGroup", "CreateObject", "AddData", "AddVisual", "AddComment", "AddFile", "CreateWithUid", "Rename", "SetFlag", "SetVal", "SetMeta", "Move", "MoveSame", "AddToGroup",
        "AddDataFails", "StripOpt", "SaveAs", "Helper", "Copy2", "Remove2", "ScrubData", "CreateDeferred", "PGWithUid",
        "RemoveFromGroup", "RemovePG", "RemoveViaWorkspace", "RemoveViaParent", "DropRef", "Collect", "Purge",
-       "LookupDead", "Copy", "Close", "Open", "CallClosed", "RemoveBlocked", "OpenAgain", "SetType", "Copy2Data", "RemoveNotAChild", "CopyIntoSelf", "AddDataLike"]
+       "LookupDead", "Copy", "Close", "Open", "CallClosed", "RemoveBlocked", "OpenAgain", "SetType", "Copy2Data", "RemoveNotAChild", "CopyIntoSelf", "AddDataLike", "RemovePair"]
 INV_ASBUILT = ["TypeOK", "DirtyOnlyInRW", "W2WellFormed", "ReopenEqualsLive", "LinksToNodes", "OneParent", "PGPropsAreChildren", "WriteThrough",
                "NoDanglingPG", "RegistryMatchesMemory"]
 PROPS = ["Footprint", "FrozenFile", "OptStaysStripped", "FreshOnlyWhenTaken"]
@@ -30,7 +30,7 @@ def minus(*drop):
 
 
 GC = ["DropRef", "Collect", "Purge", "LookupDead"]
-NEW = ["RemoveBlocked", "OpenAgain", "SetType", "Copy2Data", "RemoveNotAChild", "CopyIntoSelf", "AddDataLike", "AddComment", "AddFile", "AddVisual", "SetMeta", "MoveSame", "AddDataFails", "StripOpt", "SaveAs", "Helper", "Copy2", "Remove2", "ScrubData", "CreateDeferred", "PGWithUid"]
+NEW = ["RemoveBlocked", "OpenAgain", "SetType", "Copy2Data", "RemoveNotAChild", "CopyIntoSelf", "AddDataLike", "RemovePair", "AddComment", "AddFile", "AddVisual", "SetMeta", "MoveSame", "AddDataFails", "StripOpt", "SaveAs", "Helper", "Copy2", "Remove2", "ScrubData", "CreateDeferred", "PGWithUid"]
 BASE = minus("CreateWithUid", "CallClosed", *NEW)
 # --- C01: histories of create/assign/rename/move/copy/delete with close/re-open and GC points
 cfg("C01_quick", 1, 1, 1, 1, [a for a in BASE if a != "SetFlag"] + ["MoveSame", "CreateDeferred", "AddDataFails"], 6, names=("a",), vals=(1, 2))
@@ -42,9 +42,9 @@ cfg("C01cp_quick", 0, 2, 2, 2, ["CreateObject", "AddData", "AddToGroup", "Copy",
 cfg("C01_thorough", 2, 1, 2, 1, BASE + ["MoveSame", "AddDataFails", "SaveAs", "CreateDeferred", "SetMeta"], 5, names=("a", "b"))
 # comments and attached files on groups and objects through create / copy / remove / re-open
 cfg("C01cf_quick", 1, 1, 3, 1, ["CreateGroup", "CreateObject", "AddComment", "AddFile", "AddData", "Copy", "Move", "RemoveViaWorkspace",
-                                "RemoveViaParent", "Close", "Open", "Collect", "DropRef"], 6, names=("a",), vals=(1,))
+                                "RemoveViaParent", "RemovePair", "Close", "Open", "Collect", "DropRef"], 6, names=("a",), vals=(1,))
 # --- C02: layout of every closed file: removals, re-parenting, copies, failed writes, closes
-C02A = ["CreateGroup", "CreateObject", "AddData", "Move", "MoveSame", "AddToGroup", "RemoveViaWorkspace", "RemoveViaParent",
+C02A = ["CreateGroup", "CreateObject", "AddData", "Move", "MoveSame", "AddToGroup", "RemoveViaWorkspace", "RemoveViaParent", "RemovePair",
         "Copy", "Close", "Open", "AddDataFails"] + GC
 cfg("C02_quick", 2, 1, 1, 1, C02A, 6, names=("a",), vals=(1,))
 # data that are members of property groups re-parented between objects
@@ -52,7 +52,10 @@ cfg("C02mv_quick", 0, 2, 2, 2, ["CreateObject", "AddData", "AddToGroup", "Move",
     names=("a",), vals=(1,))
 cfg("C02_thorough", 2, 2, 2, 2, C02A + ["RemoveFromGroup", "SaveAs"], 6, names=("a",), vals=(1,))
 # removal requests addressed to the wrong parent (other object's property group, entity under another parent): no effect
-cfg("C05na_quick", 1, 2, 2, 1, ["CreateGroup", "CreateObject", "AddData", "AddToGroup", "RemoveNotAChild", "Close", "Open"], 6, names=("a",), vals=(1,))
+cfg("C05na_quick", 1, 2, 2, 1, ["CreateGroup", "CreateObject", "AddData", "AddToGroup", "RemoveNotAChild", "RemovePair", "Close", "Open"], 6, names=("a",), vals=(1,))
+# a data set removed through its parent, released, collected, and the listing that purges its node (six actions deep)
+cfg("C05gc_quick", 0, 1, 2, 1, ["CreateObject", "AddData", "RemoveViaParent", "DropRef", "Collect", "Purge", "LookupDead", "Close", "Open"], 8,
+    names=("a",), vals=(1,))
 # --- C05: removal through both entry points; data in 0/1/2 property groups; survivors keep working
 C05A = ["CreateGroup", "CreateObject", "AddData", "AddToGroup", "SetFlag", "RemoveViaWorkspace", "RemoveViaParent", "RemovePG",
         "Close", "Open", "Copy"] + GC
